@@ -991,6 +991,28 @@ def _krome_regex_extractor(ctx, pkg, fn, fl):
                   "the restructured tmin/tmax handling (operator stripping, no-bound spellings, field -> attribute mapping) is not in a form this rule can decide")
 
 
+def _record_fields(pkg, fl, v):
+    """`Rec.make(line).field` -- Rec an immutable record type of the package (pymodel.records: NamedTuple), make a class method of it
+    that returns `cls(<values>)` -- is the value the constructor call binds to that field (the method is read like any small helper:
+    valueflow's inliner, with `cls` standing for the record type).  Everything else is left as it is."""
+    recs = pkg.records()
+    if not recs or not isinstance(v, tuple) or not v:
+        return v
+    v = tuple(_record_fields(pkg, fl, x) if isinstance(x, tuple) else x for x in v)
+    if v[0] == "attr" and isinstance(v[1], tuple) and len(v[1]) == 5 and v[1][0] == "meth" and v[1][1][0] == "global" and v[1][1][1] in recs and v[2] in recs[v[1][1][1]]:
+        name, fields = v[1][1][1], recs[v[1][1][1]]
+        callee = pkg.classes[name].methods.get(v[1][2]) if name in pkg.classes else None
+        if callee is not None and {ast.unparse(d) for d in callee.decorator_list} == {"classmethod"}:
+            inl = fl._inline(callee, v[1][3], dict(v[1][4]))
+            inl = simp(inl) if inl is not None else None
+            if inl is not None and inl[0] == "call" and inl[1] == ("param", "cls") and not any(a[0] == "star" for a in inl[2]) and all(k != "**" for k, _ in inl[3]):
+                given = dict(zip(fields, inl[2]))
+                given.update({k: x for k, x in inl[3] if k in fields})
+                if v[2] in given:
+                    return given[v[2]]
+    return v
+
+
 def _windows_unconditional(ctx, pkg):
     """Every fixed-format parser stores float(<field>) into temp_min / temp_max -- no silent fallback to 'unbounded'."""
     from ..valueflow import Flow
@@ -1054,7 +1076,7 @@ def _windows_unconditional(ctx, pkg):
             shared = set(last.guards)
             for o_ in st:
                 shared &= set(o_.guards)
-            lv = [(tuple(simp(g_) for g_, pol in o_.guards if (g_, pol) not in shared) + cs, x) for o_ in st for cs, x in arms(o_.value)]
+            lv = [(tuple(simp(g_) for g_, pol in o_.guards if (g_, pol) not in shared) + cs, x) for o_ in st for cs, x in arms(_record_fields(pkg, fl, simp(o_.value)))]
             kinds = [kind(x) for _, x in lv]
             leaf_fields = {y for _, x in lv for y in walk(x) if isinstance(y, tuple) and y and y[0] in ("item", "sub", "elem")}
             tests = [c for cs, _ in lv for c in cs]
